@@ -372,9 +372,10 @@ mod imp {
         .to_string();
         let fallible = term == "try_for_each" || term == "collect_result";
         // source: j items at once, one Pending (woken with everything else), the rest at once
-        let j = match rng.below(4) {
+        let j = match rng.below(5) {
             0 => n,
             1 => n.saturating_sub(1),
+            2 => n.saturating_sub(2 + rng.below(3) as usize),
             _ => std::cmp::min(n, EDGES[rng.below(EDGES.len() as u64) as usize]),
         };
         let mut steps = vec![];
@@ -391,7 +392,15 @@ mod imp {
         let mut scripts = vec![ScriptS { steps, tail: "done".into(), tail_ok: true, hint }];
         let nwork = n * 2 + 2;
         // at most one failure, at any position
-        let bad = if fallible && rng.chance(75) { 1 + rng.below(std::cmp::min(nwork, n + 1) as u64) as usize } else { 0 };
+        // (closure futures are created, woken and hence completed in index order: the k-th completion of the batch is child k)
+        let bad = if !fallible || rng.chance(25) {
+            0
+        } else if rng.chance(60) {
+            let e = EDGES[rng.below(EDGES.len() as u64) as usize];
+            if e <= n + 1 { e } else { 1 + rng.below(n as u64 + 1) as usize }
+        } else {
+            1 + rng.below(std::cmp::min(nwork, n + 1) as u64) as usize
+        };
         let eager_pct = [0u64, 0, 10, 50][rng.below(4) as usize];
         for c in 1..=nwork {
             let steps = if rng.chance(eager_pct) { vec![] } else { vec![step("p")] };
